@@ -906,6 +906,10 @@ func (te *TemplateEngine) cloneDocument(source *Document) *Document {
 	// 复制图片ID计数器
 	doc.nextImageID = source.nextImageID
 
+	// 复制脚注/尾注和编号的登记表，使渲染结果可以继续添加脚注和列表
+	doc.footnoteManager = source.footnoteManager.clone()
+	doc.numberingManager = source.numberingManager.clone()
+
 	return doc
 }
 
